@@ -102,7 +102,7 @@ pub fn drive07(a: &Args, m: &mut Mon, sink: &mut Sink) {
     canaries07(sink);
     m.canaries_fed += 4;
     let mut r = Rng::lane(a.seed, "C07", a.shard, 0);
-    let n = a.n(12_000, 400_000);
+    let n = a.n(12_000, 600_000);
     for _ in 0..n {
         macro_rules! per {
             ($t:ident) => {
@@ -230,7 +230,7 @@ pub fn drive08(a: &Args, m: &mut Mon, sink: &mut Sink) {
     m.floors(FLOORS08);
     canaries08(m, sink);
     let mut r = Rng::lane(a.seed, "C08", a.shard, 0);
-    let n = a.n(25_000, 600_000);
+    let n = a.n(25_000, 3_000_000);
     for k in 0..n {
         macro_rules! per {
             ($t:ident) => {
